@@ -14,6 +14,7 @@ import vlib
 
 EPS = {"f": 2.0 ** -24, "fa": 2.0 ** -24, "d": 2.0 ** -53}
 C_TOL = 64.0
+O2_FLOOR = 1e-7     # orthogonal() stops when |m_next - m|^2 < 1e-8: quadratic convergence leaves an error of order 1e-8
 SIGNSEG = {"rot": [(28, 32)], "qf": [(0, 4)]}
 
 
@@ -133,6 +134,24 @@ def oracle(kind, args, out):
         chk("A*B affine part", ABp, ap(Al, Ap, Bp))
         chk("rcp(A)(A(p)) = p", ap(Rl, Rp, ap(Al, Ap, [1.0, -2.0])), [1.0, -2.0], k)
         chk("rcp(A).l = inverse(A.l)", flat(Rl), flat(inv(Al)), k)
+    elif kind == "o2":
+        # closest orthogonal matrix = orthogonal polar factor, in closed form for 2x2:
+        # det > 0: the rotation (M + cof M)/|.|; det < 0: mirror the first column, take the rotation, mirror it back
+        M = cols(args[0:4], 2); Qm = cols(out[0:4], 2)
+        dM = det(M); sg = -1.0 if dM < 0 else 1.0
+        a, c, b, d = sg * M[0][0], sg * M[0][1], M[1][0], M[1][1]
+        h = math.hypot(a + d, c - b)
+        R0 = [[(a + d) / h, (c - b) / h], [(b - c) / h, (a + d) / h]]          # columns
+        P = [[sg * R0[0][0], sg * R0[0][1]], R0[1]]
+        k = cond(M)
+        chk("orthogonal(): Q^T Q = 1", flat(mm(tr(Qm), Qm)), flat(ident(2)), k)
+        chk("orthogonal(): sign det Q = sign det M", [det(Qm)], [sg], k)
+        S = mm(tr(Qm), M)
+        chk("orthogonal(): Q^T M symmetric", [S[0][1]], [S[1][0]], k)
+        chk("orthogonal(): Q^T M positive definite (Q, not -Q)", [min(S[0][0], 0.0), min(det(S), 0.0), min(S[0][0] + S[1][1], 0.0)], [0.0, 0.0, 0.0], k)
+        chk("orthogonal() = polar factor (closest orthogonal matrix, closed form)", flat(Qm), flat(P), k)
+        if maxdiff(flat(mm(tr(M), M)), flat(ident(2))) < 1e-6:
+            chk("orthogonal(Q) = Q for a rotation / reflection", flat(Qm), flat(M))
     elif kind == "r2":
         r, p = args[0], args[1:3]
         M = cols(out[0:4], 2); Al, Ap = cols(out[4:8], 2), out[8:10]
@@ -218,7 +237,7 @@ def oracle(kind, args, out):
 
 
 def kappa_of(kind, args):
-    if kind == "l2": return cond(cols(args[0:4], 2))
+    if kind in ("l2", "o2"): return cond(cols(args[0:4], 2))
     if kind == "l3": return cond(cols(args[0:9], 3))
     if kind == "a3": return cond(cols(args[0:9], 3))
     if kind == "a2": return cond(cols(args[0:4], 2))
@@ -289,6 +308,18 @@ def make_cases(ctx):
         cases.append(("a3", gen_real_matrix(r, 3) + gen_vec(r, 3, False) + gen_real_matrix(r, 3) + gen_vec(r, 3, False) + gen_vec(r, 3, False), False))
         cases.append(("a2", gen_real_matrix(r, 2) + gen_vec(r, 2, False) + gen_real_matrix(r, 2) + gen_vec(r, 2, False), False))
         cases.append(("r2", [f32(r.uniform(-2 * math.pi, 2 * math.pi))] + gen_vec(r, 2, False), False))
+    # orthogonal(): M = R(a) diag(s1,s2) R(b), half of them times a reflection (det < 0: the mirror wrapper), plus pure
+    # rotations / reflections (fixed points); condition <= 64, pairwise distinct entries
+    def R2(t): return [[math.cos(t), math.sin(t)], [-math.sin(t), math.cos(t)]]
+    no2 = ctx.pick(300, 3000)
+    i = 0
+    while i < no2:
+        ta, tb = r.uniform(-math.pi, math.pi), r.uniform(-math.pi, math.pi)
+        s1, s2 = (1.0, 1.0) if i % 10 == 0 else (math.exp(r.uniform(-1.6, 1.6)), math.exp(r.uniform(-1.6, 1.6)))
+        M = mm(mm(R2(ta), [[s1, 0.0], [0.0, s2]]), R2(tb))
+        if i % 2: M = mm(M, [[1.0, 0.0], [0.0, -1.0]]) if i % 4 == 1 else mm([[-1.0, 0.0], [0.0, 1.0]], M)
+        if cond(M) > 64 or len(set(round(abs(x), 3) for x in flat(M))) < (4 if i % 10 else 2): continue
+        cases.append(("o2", flat(M), False)); i += 1
     # rotations: unit (and scaled) axes x angles in [-2pi, 2pi]; angle classes chosen so that all four
     # quaternion-from-matrix branches occur (branch 1 iff |cos(r/2)| >= 1/2; else the dominant axis component decides)
     for i in range(ctx.pick(400, 4000)):
@@ -322,9 +353,9 @@ def make_cases(ctx):
     return cases
 
 
-KINDS = {"f": {"l2", "r2", "a2", "l3", "a3", "rot", "frm", "look", "q", "qf", "qr", "ypr", "sl"},
+KINDS = {"f": {"o2", "l2", "r2", "a2", "l3", "a3", "rot", "frm", "look", "q", "qf", "qr", "ypr", "sl"},
          "fa": {"l3", "a3", "rot", "frm", "look"},
-         "d": {"q", "qf", "qr", "ypr", "sl"}}
+         "d": {"o2", "q", "qf", "qr", "ypr", "sl"}}
 
 
 def parse_out(line, kind):
@@ -372,6 +403,9 @@ def regenerate(ctx):
     ctx.cov["cxx2coq"] = {"translated_definitions": len(re.findall(r"^Definition ", txt, re.M)), "unsupported": uns}
     if uns:
         ctx.log("cxx2coq: unsupported: " + ", ".join(uns))
+    for u in uns:
+        if u != "LinearSpace2_orthogonal__":      # the loop: hand-modelled in coq/C06/Ortho.v
+            ctx.broken.append("cxx2coq no longer translates %s (model incomplete)" % u)
     if not os.path.exists(gen) or open(gen).read() != txt:
         ctx.log("gen/GenLin.v changed: theorems are re-checked against the regenerated definitions")
         shutil.copy(tmp, gen)
@@ -408,7 +442,9 @@ def run(ctx):
     # model readings
     mq = {"f": runall(model, ["q", "f"], lambda c: c[2] and c[0] in ("l2", "l3", "a2", "a3", "q"))[1],
           "d": runall(model, ["q", "d"], lambda c: c[2] and c[0] == "q")[1]}
-    mf = {"f": runall(model, ["f", "f"], lambda c: True)[1], "d": runall(model, ["f", "d"], lambda c: c[0] in KINDS["d"])[1]}
+    mf = {"f": runall(model, ["f", "f"], lambda c: True)[1], "d": runall(model, ["f", "d"], lambda c: c[0] in KINDS["d"] and c[0] != "o2")[1]}
+    # LinearSpace2<vec2d>::orthogonal(): the float model read without rounding to binary32 is the double computation
+    mf["d"].update(runall(model, ["d", "d"], lambda c: c[0] == "o2")[1])
     mq["fa"], mf["fa"] = mq["f"], mf["f"]
 
     stats = {"compared_outputs": 0, "bit_exact_vs_machine_reading": 0, "model_mismatch": 0, "oracle_checks": 0, "oracle_fail": 0}
@@ -435,6 +471,7 @@ def run(ctx):
             for (name, errv, scale, k2) in oracle(kind, ain, iv):
                 stats["oracle_checks"] += 1
                 tol = C_TOL * max(1.0, k2) * eps * scale
+                if kind == "o2": tol = max(tol, O2_FLOOR * scale)
                 rt = errv / tol if tol > 0 else float("inf")
                 key = kind + ": " + name.split(" (branch")[0]
                 if rt > worst_ratio.get(key, 0.0): worst_ratio[key] = rt
@@ -460,12 +497,13 @@ def run(ctx):
                 if nm.startswith("machine"):
                     stats["bit_exact_vs_machine_reading"] += sum(1 for x, y in zip(iv, ref) if y is not None and x == y)
                 tol = C_TOL * max(1.0, kap) * eps * scale
+                if kind == "o2": tol = max(tol, O2_FLOOR * scale)
                 if errv > tol:
                     stats["model_mismatch"] += 1
                     if not bad:
                         ctx.broken.append("correspondence: regenerated model (%s) and %s implementation differ on %s: output #%d differs by %.3g (tolerance %.3g) although every identity of the oracle holds"
                                           % (nm, fl, lines[i][:200], wi, errv, tol))
-            if not bad and not isint and kind in ("rot", "qf", "sl", "l3", "a3"):
+            if not bad and not isint and kind in ("rot", "qf", "sl", "l3", "a3", "o2"):
                 ctx.nontriv(fl + "|" + lines[i])
     ctx.cov["quaternion_from_matrix_branch_coverage"] = {fl: {"branch%d" % b: n for b, n in bc.items()} for fl, bc in branch_cov.items()}
     for fl in ("f", "d"):
@@ -486,7 +524,7 @@ def run(ctx):
                     "g++ -O1 without -ffast-math; libm sin/cos/acos"]
     ctx.assumptions += ["the generated model is the RKCOMMON_NO_SIMD configuration: rcp(float)/rsqrt(float) are 1/x and 1/sqrt(x); the SSE estimate + one Newton step of the default build is covered only numerically (within tolerance)",
                         "theorems are exact real algebra (IR); the floating-point tolerance versus condition number is decided numerically, not proved",
-                        "LinearSpace2::orthogonal() (a 99-step iteration) is outside the translated subset and is not modelled",
+                        "LinearSpace2::orthogonal() contains a loop: hand model coq/C06/Ortho.v (control flow mirrored by hand, every callee regenerated); proved: fixed point orthogonal, det sign kept, polar form Q*S kept with the same Q, mirror wrapper; convergence of the iteration (that it stops near the fixed point) is checked numerically only",
                         "a default-constructed object is modelled with 0 in its (indeterminate) fields; the translated code assigns every field before reading it"]
     if ctx.thorough():
         ctx.coq_thorough_chk(["C06.Properties"])
